@@ -51,7 +51,7 @@ static int percpu_on;
 static struct pollslot polls[MAX_SCRIPT_THREADS][3];
 static int mode;	/* 0 callrcu, 1 barrier, 2 poll */
 
-static void qsbr_close(int me)
+HARNESS_BOOKKEEPING static void qsbr_close(int me)
 {
 	if (F->is_qsbr && qcs[me] >= 0) {
 		orc_cs_end(qcs[me]);
@@ -59,7 +59,7 @@ static void qsbr_close(int me)
 	}
 }
 
-static void qsbr_open(int me)
+HARNESS_BOOKKEEPING static void qsbr_open(int me)
 {
 	if (F->is_qsbr)
 		qcs[me] = orc_cs_begin(me);
@@ -299,6 +299,7 @@ static void *cr_thread(void *arg)
 	for (k = 0; k < 3; k++) {
 		struct pollslot *ps = &polls[me][k];
 		while (ps->used && !ps->was_true) {
+			usim_set_op("%d: polling its handle %d until poll_state_synchronize_rcu() says true", me, k);
 			poll_check(me, k, "poll_state_synchronize_rcu() returning true");
 			if (ps->was_true)
 				break;
